@@ -29,7 +29,7 @@ def with_val(rng, k):
 
 def generate(rng, tier):
     cases = []
-    reps = 2 if tier == "quick" else 40
+    reps = gen.N(tier, 2, 40)
     for _ in range(reps):
         for (l0, r0) in PAIRS + [("per", "per")]:
             for n in (3, 4, 5, rng.choice([6, 9, 12])):
